@@ -2,6 +2,10 @@
 //! Correspondence: real `SegmentWriter`, `CheckpointWriter`, `Manifest` API, `ManifestManager`,
 //! `WalRotator`, `RecoveryManager::{recover, recover_with_wal}` on `InMemoryObjectStore` /
 //! `InMemoryWalStore` vs the model `Stream.recover` / `recoverWithWal`.
+//! The application step is run too: the real `ReplicatedShardedState::apply_recovered_state` and the
+//! whole `StreamingIntegration::recover(&state)` path on fresh real nodes; `snapshot_state()` is
+//! compared with the model (`Stream.applyRecoveredState`) and with the ground-truth merge of
+//! everything persisted, plus GET / HGETALL reads and a second application.
 //! Oracle (on the real code, independent of the model): every persisted update is returned
 //! (selection completeness); the recovered fold equals the merge of the ground-truth set; a
 //! permuted / duplicated layout of the same set recovers to the same fold; a second recovery
@@ -10,15 +14,17 @@ use crate::enc::{hex, key_cmp, MRv};
 use crate::out::Out;
 use crate::rng::Rng;
 use crate::Args;
-use redis_sim::redis::SDS;
+use redis_sim::production::ReplicatedShardedState;
+use redis_sim::redis::{Command, RespValue, SDS};
 use redis_sim::replication::lattice::ReplicaId;
 use redis_sim::replication::state::{ReplicatedValue, ReplicationDelta, ShardReplicaState};
-use redis_sim::replication::ConsistencyLevel;
+use redis_sim::replication::{ConsistencyLevel, ReplicationConfig};
 use redis_sim::streaming::{
     CheckpointInfo, CheckpointWriter, Compression, InMemoryObjectStore, InMemoryWalStore, Manifest,
     ManifestManager, ObjectStore, RecoveredState, RecoveryError, RecoveryManager, SegmentInfo,
-    SegmentWriter, WalEntry, WalRotator,
+    SegmentWriter, StreamingConfig, StreamingIntegration, WalEntry, WalRotator,
 };
+use std::sync::Arc;
 use serde_json::{json, Value};
 use std::collections::{BTreeMap, HashMap};
 
@@ -129,6 +135,126 @@ pub fn show_man(m: &Manifest) -> String {
         .map(|s| format!("{}:{}:{}:{}:{}", s.id, s.record_count, s.size_bytes, s.min_timestamp, s.max_timestamp))
         .collect();
     format!("man v={} next={} chk={} segs=[{}] inv={}", m.version, m.next_segment_id, chk, segs.join(","), manifest_inv(m) as u8)
+}
+
+// ---------------------------------------------------------------------------------------------
+// the application step: ReplicatedShardedState::apply_recovered_state / StreamingIntegration::recover
+// ---------------------------------------------------------------------------------------------
+
+fn repl_config(rid: u64) -> ReplicationConfig {
+    ReplicationConfig {
+        enabled: false,
+        replica_id: rid,
+        consistency_level: ConsistencyLevel::Eventual,
+        gossip_interval_ms: 100,
+        peers: vec![],
+        replication_factor: 3,
+        partitioned_mode: false,
+        selective_gossip: false,
+        virtual_nodes_per_physical: 150,
+    }
+}
+
+/// apply a recovery result to a fresh real node; returns the node and its replication snapshot
+async fn apply_fresh(rid: u64, rs: &RecoveredState, times: usize) -> (ReplicatedShardedState, HashMap<String, ReplicatedValue>) {
+    let state = ReplicatedShardedState::new(repl_config(rid));
+    for _ in 0..times {
+        state.apply_recovered_state(rs.checkpoint_state.clone(), rs.deltas.clone());
+    }
+    let snap = state.snapshot_state().await;
+    (state, snap)
+}
+
+fn show_applied(snap: &HashMap<String, ReplicatedValue>) -> String {
+    format!("applied {}", show_upds(&sorted_map(snap)))
+}
+
+fn bulk_pairs(r: &RespValue) -> Option<Vec<(Vec<u8>, Vec<u8>)>> {
+    match r {
+        RespValue::Array(Some(items)) => {
+            let mut flat: Vec<Vec<u8>> = Vec::new();
+            for i in items {
+                match i {
+                    RespValue::BulkString(Some(b)) => flat.push(b.clone()),
+                    _ => return None,
+                }
+            }
+            if flat.len() % 2 != 0 {
+                return None;
+            }
+            let mut v: Vec<(Vec<u8>, Vec<u8>)> = flat.chunks(2).map(|c| (c[0].clone(), c[1].clone())).collect();
+            v.sort();
+            Some(v)
+        }
+        RespValue::Array(None) => Some(vec![]),
+        _ => None,
+    }
+}
+
+/// oracle on the applied state: (b) per key equal to the ground-truth merge of everything
+/// persisted, applying twice == once, client reads agree with the merge
+async fn applied_oracle(out: &mut Out, layout: &str, rid: u64, rs: &RecoveredState, snap: &HashMap<String, ReplicatedValue>,
+                        state: &ReplicatedShardedState, truth_set: &[Upd], rng: &mut Rng, claimed: bool, tag: &str) {
+    if !claimed {
+        out.count("excluded:applied-state-incoherent-or-broken-manifest");
+        return;
+    }
+    let mut truth = truth_set.to_vec();
+    rng.shuffle(&mut truth);
+    let want = sorted_map(&fold_real(&truth));
+    let got = sorted_map(snap);
+    out.count("oracle:applied-state-compared");
+    if got != want {
+        let diff: Vec<String> = want
+            .iter()
+            .filter(|(k, v)| !got.iter().any(|(k2, v2)| k == k2 && v == v2))
+            .map(|(k, v)| format!("{} want {} got {}", hex(k.as_bytes()), v.show(), got.iter().find(|(k2, _)| k2 == k).map(|(_, v2)| v2.show()).unwrap_or("<absent>".into())))
+            .collect();
+        out.violation(&format!("C11:applied-state:differs-from-merge:{}", tag),
+            "after recover() + ReplicatedShardedState::apply_recovered_state on a fresh node the replication state of a key is not the merge of everything persisted for it",
+            json!({"layout": layout, "differing_keys": diff, "applied": show_upds(&got), "merge_of_persisted": show_upds(&want)}));
+        return;
+    }
+    // applying the recovered state twice == once
+    let (_s2, snap2) = apply_fresh(rid, rs, 2).await;
+    if sorted_map(&snap2) != got {
+        out.violation("C11:applied-state:second-application-differs", "apply_recovered_state applied twice differs from applied once", json!({"layout": layout}));
+    }
+    // client-visible reads for values without expiry
+    for (k, v) in &want {
+        if v.exp.is_some() {
+            continue;
+        }
+        match &v.crdt {
+            crate::enc::MCrdt::Lww(l) => {
+                if l.v.is_none() && !l.tomb {
+                    continue; // not a value a replica produces (boundary stream only)
+                }
+                let reply = state.execute(Command::Get(k.clone())).await;
+                let want_v: Option<Vec<u8>> = if l.tomb { None } else { l.v.clone() };
+                let ok = match (&reply, &want_v) {
+                    (RespValue::BulkString(g), w) => g == w,
+                    _ => false,
+                };
+                out.count("oracle:read-get");
+                if !ok {
+                    out.violation("C11:applied-state:read-differs-from-merge:get", "GET after recovery does not serve the merge of everything persisted",
+                        json!({"layout": layout, "key": hex(k.as_bytes()), "merge": v.show(), "reply": format!("{:?}", reply)}));
+                }
+            }
+            crate::enc::MCrdt::H(h) => {
+                let reply = state.execute(Command::HGetAll(k.clone())).await;
+                let mut want_f: Vec<(Vec<u8>, Vec<u8>)> = h.iter().filter(|(_, l)| !l.tomb).filter_map(|(f, l)| l.v.clone().map(|v| (f.as_bytes().to_vec(), v))).collect();
+                want_f.sort();
+                out.count("oracle:read-hgetall");
+                if bulk_pairs(&reply) != Some(want_f) {
+                    out.violation("C11:applied-state:read-differs-from-merge:hgetall", "HGETALL after recovery does not serve the merge of everything persisted",
+                        json!({"layout": layout, "key": hex(k.as_bytes()), "merge": v.show(), "reply": format!("{:?}", reply)}));
+                }
+            }
+            _ => {}
+        }
+    }
 }
 
 // ---------------------------------------------------------------------------------------------
@@ -366,6 +492,41 @@ impl Real {
         self.log(out, "RECWAL".into(), a);
         r
     }
+    /// the real application path on a fresh node: direct `apply_recovered_state` of `r`
+    /// (op line APPLY / APPLYWAL); for APPLY also the whole `StreamingIntegration::recover` path
+    pub async fn apply(&mut self, out: &mut Out, r: &Result<RecoveredState, RecoveryError>, op: &str)
+        -> Option<(ReplicatedShardedState, HashMap<String, ReplicatedValue>)> {
+        match r {
+            Err(_) => {
+                let a = show_recovered(r);
+                self.log(out, op.into(), a);
+                None
+            }
+            Ok(rs) => {
+                let (state, snap) = apply_fresh(self.rid, rs, 1).await;
+                self.log(out, op.into(), show_applied(&snap));
+                if op == "APPLY" {
+                    let mut cfg = StreamingConfig::test();
+                    cfg.prefix = PREFIX.to_string();
+                    let integ = StreamingIntegration::with_store(Arc::new(self.store.clone()), cfg, self.rid);
+                    let st2 = ReplicatedShardedState::new(repl_config(self.rid));
+                    match integ.recover(&st2).await {
+                        Ok(_) => {
+                            let snap2 = st2.snapshot_state().await;
+                            out.count("oracle:integration-path-compared");
+                            if sorted_map(&snap2) != sorted_map(&snap) {
+                                out.violation("C11:applied-state:integration-path-differs",
+                                    "StreamingIntegration::recover(&state) leaves a different replication state than recover() + apply_recovered_state",
+                                    json!({"layout": self.text, "integration": show_upds(&sorted_map(&snap2)), "direct": show_upds(&sorted_map(&snap))}));
+                            }
+                        }
+                        Err(e) => out.violation("C11:applied-state:integration-recover-failed", &format!("StreamingIntegration::recover failed: {}", e), json!({"layout": self.text})),
+                    }
+                }
+                Some((state, snap))
+            }
+        }
+    }
     /// ground truth under the saved manifest
     pub fn persisted(&self) -> Vec<Upd> {
         let mut l = if self.man.checkpoint.is_some() { self.chk_content.clone() } else { Vec::new() };
@@ -468,6 +629,13 @@ async fn layout(out: &mut Out, rng: &mut Rng, ups: &[Upd], force_chk_first: bool
     let r = real.rec(out).await;
     let persisted = real.persisted();
     let inv = manifest_inv(&real.man);
+    if let Some((state, snap)) = real.apply(out, &r, "APPLY").await {
+        if let Ok(rs) = &r {
+            let claimed = inv && coherent(&persisted);
+            let text = real.text.clone();
+            applied_oracle(out, &text, real.rid, rs, &snap, &state, &persisted, rng, claimed, tag).await;
+        }
+    }
     let fold = match &r {
         Ok(rs) => {
             // oracle 1: selection completeness — every persisted update is returned
@@ -524,7 +692,7 @@ async fn layout(out: &mut Out, rng: &mut Rng, ups: &[Upd], force_chk_first: bool
 
 async fn case(out: &mut Out, rng: &mut Rng, corpus: Option<&str>) {
     let ups: Vec<Upd> = match corpus {
-        Some("hwm") | Some("chk-first") => Vec::new(),
+        Some("hwm") | Some("chk-first") | Some("chk-tombstone") => Vec::new(),
         _ => gen_updates(rng, out, 25),
     };
     let co = coherent(&ups);
@@ -537,6 +705,37 @@ async fn case(out: &mut Out, rng: &mut Rng, corpus: Option<&str>) {
         let (_r, res) = layout(out, &mut Rng::new(7), &[d], true, "corpus").await;
         out.case(&res.text, true);
         out.sample(json!({"layout": res.text}));
+        return;
+    }
+    if corpus == Some("chk-tombstone") {
+        // checkpoint (covering segment 0) holds session = tombstone @10 and keep @3; segment 1,
+        // listed after it, holds session = "alive" @5 (a delta that reached the store late) and
+        // other @7: the merge of everything persisted for `session` is the tombstone
+        let t = crate::c12::lww_upd("session", b"", 10, 1, true);
+        let keep = crate::c12::lww_upd("keep", b"kept", 3, 1, false);
+        let alive = crate::c12::lww_upd("session", b"alive", 5, 1, false);
+        let other = crate::c12::lww_upd("other", b"o", 7, 1, false);
+        let mut real = Real::new(out, 1);
+        let id0 = real.malloc(out);
+        let (size, lo, hi) = real.seg(out, id0, &[keep.clone()]).await;
+        real.madd(out, id0, 1, size, lo, hi);
+        let state: HashMap<String, ReplicatedValue> = [t.clone(), keep.clone()].into_iter().collect();
+        real.chk(out, 1000, id0, &state).await;
+        real.mcompact(out, 1000, id0, 2);
+        let id1 = real.malloc(out);
+        let (size, lo, hi) = real.seg(out, id1, &[alive.clone(), other.clone()]).await;
+        real.madd(out, id1, 2, size, lo, hi);
+        real.msave(out).await;
+        let r = real.rec(out).await;
+        let persisted = real.persisted();
+        if let Some((state, snap)) = real.apply(out, &r, "APPLY").await {
+            if let Ok(rs) = &r {
+                let text = real.text.clone();
+                applied_oracle(out, &text, real.rid, rs, &snap, &state, &persisted, rng, true, "corpus-checkpoint-tombstone").await;
+            }
+        }
+        out.case(&real.text, true);
+        out.sample(json!({"layout": real.text}));
         return;
     }
     if corpus == Some("hwm") {
@@ -629,6 +828,15 @@ async fn case(out: &mut Out, rng: &mut Rng, corpus: Option<&str>) {
         let r = real.recwal(out).await;
         let persisted = real.persisted();
         wal_oracle(out, &real, &r, &persisted, &wal);
+        if let Some((state, snap)) = real.apply(out, &r, "APPLYWAL").await {
+            if let Ok(rs) = &r {
+                let mut all: Vec<Upd> = persisted.clone();
+                all.extend(wal.iter().cloned());
+                let claimed = manifest_inv(&real.man) && coherent(&all);
+                let text = real.text.clone();
+                applied_oracle(out, &text, real.rid, rs, &snap, &state, &all, rng, claimed, "with-wal").await;
+            }
+        }
         out.count("layout:with-wal");
         nontrivial = true;
     }
@@ -698,6 +906,7 @@ pub fn run(a: &Args) {
         // corpus first (known findings must reproduce on every run)
         case(&mut out, &mut Rng::new(0xC11), Some("hwm")).await;
         case(&mut out, &mut Rng::new(0xC11), Some("chk-first")).await;
+        case(&mut out, &mut Rng::new(0xC11), Some("chk-tombstone")).await;
         for _ in 0..a.n {
             let mut r = rng.fork();
             case(&mut out, &mut r, None).await;
